@@ -242,6 +242,42 @@ def same(cx, functional="rootfinder", kind="nn", pattern="all", second=True):
     return "ok"
 
 
+def uniquifier(cx, n=4):
+    """Uniquifier (the alias bookkeeping of every pure-function wrapper) on n objects with SYMBOLIC identities: for every aliasing
+    pattern get_unique_objs keeps the first occurrences, and map_unique_objs puts a replacement at exactly the positions of
+    its alias class"""
+    from xitorch._utils import unique as umod
+    from harness.symid import symbolic_ids, rebound_id
+    from symtorch.core import band
+    objs = [object() for _ in range(n)]
+    vals = symbolic_ids(cx, n)
+    with rebound_id(umod, objs, vals):
+        u = umod.Uniquifier(objs)
+    uo = u.get_unique_objs()
+    idx = {id(o): i for i, o in enumerate(objs)}
+    uidx = [idx[id(o)] for o in uo]
+
+    def conj(terms):
+        r = None
+        for t in terms:
+            r = t if r is None else band(r, t)
+        return r
+    cx.claim_true("unique objects in order of first appearance", uidx == sorted(uidx) and uidx[0] == 0)
+    firsts = [vals[j] != vals[k_] for k_ in uidx for j in range(k_)]
+    if firsts:
+        cx.claim("each unique object is a first occurrence", conj(firsts))
+    new = [object() for _ in uo]
+    mapped = u.map_unique_objs(new)
+    cx.claim_true("one replacement per position", len(mapped) == n and all(any(m is v for v in new) for m in mapped))
+    if len(mapped) == n:
+        cx.claim("position i receives the replacement of its own alias class",
+                 conj([vals[uidx[[k_ for k_, v in enumerate(new) if v is mapped[i]][0]]] == vals[i] for i in range(n)]))
+    other = [object() for _ in range(n)]
+    sel = u.get_unique_objs(other)
+    cx.claim_true("get_unique_objs(other list) selects the same positions", [o for o in sel] == [other[i] for i in uidx])
+    return "%d unique of %d" % (len(uo), n)
+
+
 def configs(tier):
     cfgs = []
 
@@ -256,6 +292,8 @@ def configs(tier):
         for kind in ("nn", "editable_nn", "mixed", "sibling"):
             add("%s/%s/first_frozen" % (fn, kind), same, functional=fn, kind=kind, pattern="first_frozen", second=fn != "jac")
         add("%s/nn/last_frozen" % fn, same, functional=fn, kind="nn", pattern="last_frozen", second=False)
+    for n in ((2, 3, 4, 5) if tier == "quick" else (2, 3, 4, 5, 6)):
+        add("uniquifier/n%d" % n, uniquifier, n=n, opts={"max_paths": 1000, "max_decisions": 400, "budget_s": 900})
     if tier == "thorough":
         for kind in kinds:
             add("mcquad/%s/all" % kind, same, functional="mcquad", kind=kind, pattern="all", second=True, opts={"budget_s": 900})
